@@ -1110,13 +1110,20 @@ class IkeSa(object):
                 response_payloads = [PayloadNOTIFY.from_exception(TemporaryFailure())]
             else:
                 self.new_ike_sa = IkeSa(False, proposal.spi, self.configuration, self.my_addr, self.peer_addr)
-                # take over the existing child sas
-                self.new_ike_sa.child_sas = self.child_sas
-                self.child_sas = []
-                response_payloads = self.new_ike_sa._process_ike_sa_negotiation_request(request, True,
-                                                                                        self.ike_sa_keyring.sk_d)
-                self.new_ike_sa.state = IkeSa.State.ESTABLISHED
-                self.state = IkeSa.State.REKEYED
+                try:
+                    response_payloads = self.new_ike_sa._process_ike_sa_negotiation_request(request, True,
+                                                                                            self.ike_sa_keyring.sk_d)
+                except (NoProposalChosen, InvalidKePayload) as ex:
+                    # the rekey is refused: keep this IKE_SA (and its CHILD_SAs) and just report the error
+                    self.log_warning('IKE_SA rekey negotiation failed. {}'.format(ex))
+                    self.new_ike_sa = None
+                    response_payloads = [PayloadNOTIFY.from_exception(ex)]
+                else:
+                    # take over the existing child sas
+                    self.new_ike_sa.child_sas = self.child_sas
+                    self.child_sas = []
+                    self.new_ike_sa.state = IkeSa.State.ESTABLISHED
+                    self.state = IkeSa.State.REKEYED
         # if it is a to CHILD_SAs
         else:
             response_payloads = self._process_create_child_sa_negotiation_req(request)
